@@ -369,20 +369,36 @@ OVERRIDE_CODES = [0, 0, 0, 0, 400, 401, 403, 404, 418, 429, 500, 502, 503, 100, 
 TARGETS = ["http://login.local/sign-in", "https://idp.example.com/auth?x=1&y=2", "/relative", ""]
 
 
-def gen_err(rng, depth, weights=None):
-    """error terms: every kind, redirects, foreign errors, fmt wraps, joins, chains, nested"""
+CTX_ERRS = ["canceled", "deadline"]
+# state of the context of the request / RPC at the moment the failure is translated
+RCTX = ["live", "cancelled", "deadline"]
+
+
+def ctxdone(c="canceled"):
+    """context.Canceled / context.DeadlineExceeded: what a call made with the context of the request returns when
+    that context is done (client gone or half-closed, deadline passed)"""
+    return {"t": "ctxdone", "c": c}
+
+
+def gen_err(rng, depth, weights=None, redirects=True):
+    """error terms: every kind, redirects, foreign errors, the errors of package context, fmt / foreign / *url.Error
+    wraps, joins, chains, nested"""
     r = rng.random()
     if depth <= 0 or r < 0.38:
         q = rng.random()
-        if q < 0.70:
+        if q < 0.66:
             return {"t": "kind", "k": rng.choice(KINDS)}
-        if q < 0.85:
-            return {"t": "redirect", "code": rng.choice(REDIRECT_CODES), "to": rng.choice(TARGETS)}
+        if q < 0.80:
+            if redirects:
+                return {"t": "redirect", "code": rng.choice(REDIRECT_CODES), "to": rng.choice(TARGETS)}
+            return {"t": "kind", "k": rng.choice(KINDS)}
+        if q < 0.90:
+            return ctxdone(rng.choice(CTX_ERRS))
         return {"t": "foreign", "v": rng.randrange(5)}
     if r < 0.52:
-        return {"t": "wrap", "e": gen_err(rng, depth - 1), "v": rng.randrange(2)}
+        return {"t": "wrap", "e": gen_err(rng, depth - 1, redirects=redirects), "v": rng.randrange(3)}
     n = rng.choice([1, 2, 2, 3, 4])
-    es = [gen_err(rng, depth - 1) for _ in range(n)]
+    es = [gen_err(rng, depth - 1, redirects=redirects) for _ in range(n)]
     if r < 0.68:
         return {"t": "join", "es": es, "v": rng.randrange(2)}
     return {"t": "chain", "es": es, "v": rng.randrange(4)}
@@ -443,46 +459,124 @@ def gen_cfg(rng):
     return {"verbose": rng.random() < 0.6, "ov": ov}
 
 
-def handler_case(cfg, accept, acc, err):
-    return {"fam": "errmap", "op": "handler", "cfg": cfg, "accept": accept, "acc": acc, "err": err}
+def handler_case(cfg, accept, acc, err, rctx=None):
+    """rctx: state of the context of the request when the failure is translated (None: live, the key is left out)"""
+    c = {"fam": "errmap", "op": "handler", "cfg": cfg, "accept": accept, "acc": acc, "err": err}
+    if rctx is not None:
+        c["rctx"] = rctx
+    return c
 
 
-def gen_handler_case(rng):
+def gen_handler_case(rng, service_sides=True):
+    """service_sides=False: the case goes through the two translators only, not through the service handlers"""
     accept, acc = gen_accept(rng)
-    return handler_case(gen_cfg(rng), accept, acc, gen_err(rng, rng.choice([0, 1, 2, 2, 3, 3, 4, 4, 5])))
+    c = handler_case(gen_cfg(rng), accept, acc, gen_err(rng, rng.choice([0, 1, 2, 2, 3, 3, 4, 4, 5])),
+                     rctx=rng.choice(RCTX))
+    if not service_sides:
+        c["translators_only"] = True
+    return c
 
 
 LEAVES = [{"t": "kind", "k": k} for k in KINDS] + [{"t": "redirect", "code": 303, "to": "http://login.local/x"},
-                                                  {"t": "foreign", "v": 0}]
+                                                  {"t": "foreign", "v": 0}, ctxdone("canceled"), ctxdone("deadline")]
 PLAIN_CFG = {"verbose": False, "ov": dict((c, 0) for c in CLASSES)}
 
 
 def pair_cases():
-    """every ordered pair of leaves in every binary container: exposes any reordering of either switch"""
+    """every ordered pair of leaves (incl. the errors of package context) in every binary container, in every state
+    of the request's context: exposes any reordering of either switch and any dependence on the context"""
     out = []
-    for a in LEAVES:
-        out.append(handler_case(PLAIN_CFG, None, {"k": "absent"}, a))
-        for b in LEAVES:
-            for cont in ("chain", "join"):
-                out.append(handler_case(PLAIN_CFG, None, {"k": "absent"}, {"t": cont, "es": [a, b], "v": 0}))
-            out.append(handler_case(PLAIN_CFG, None, {"k": "absent"},
-                                    {"t": "chain", "es": [{"t": "wrap", "e": a, "v": 0},
-                                                          {"t": "chain", "es": [b], "v": 1}], "v": 2}))
+    for rctx in RCTX:
+        for a in LEAVES:
+            out.append(handler_case(PLAIN_CFG, None, {"k": "absent"}, a, rctx))
+            for b in LEAVES:
+                for cont in ("chain", "join"):
+                    out.append(handler_case(PLAIN_CFG, None, {"k": "absent"}, {"t": cont, "es": [a, b], "v": 0}, rctx))
+                out.append(handler_case(PLAIN_CFG, None, {"k": "absent"},
+                                        {"t": "chain", "es": [{"t": "wrap", "e": a, "v": 0},
+                                                              {"t": "chain", "es": [b], "v": 1}], "v": 2}, rctx))
     return out
 
 
+def ctx_shapes():
+    """the failures mechanisms produce when the context of the request is done while they wait on a remote system:
+    [(name, term)]. Communication / timeout errors caused by the aborted call (errorchain + *url.Error + context
+    error, as endpoint.SendRequest, the remote authorizer, the generic / jwt / introspection authenticators, the
+    contextualizers and the proxy's forwarding build them), errors of every other kind with such a cause (a
+    mechanism or composite re-labelling the failure), fmt / join spellings, the bare context error."""
+    out = []
+    for c in CTX_ERRS:
+        cause = {"t": "wrap", "e": ctxdone(c), "v": 2}  # *url.Error{Err: context.Canceled}
+        for k in KINDS:
+            out.append((f"{k}<-{c}", {"t": "chain", "es": [{"t": "kind", "k": k}, cause], "v": 3}))
+        comm = {"t": "chain", "es": [{"t": "kind", "k": "timeout" if c == "deadline" else "communication"}, cause],
+                "v": 1}
+        for k in ("authentication", "authorization", "internal", "argument"):
+            out.append((f"{k}<-comm<-{c}", {"t": "chain", "es": [{"t": "kind", "k": k}, comm], "v": 1}))
+        out.append((f"fmt<-comm<-{c}", {"t": "wrap", "e": comm, "v": 0}))
+        out.append((f"join(comm,{c})", {"t": "join", "es": [{"t": "kind", "k": "communication"}, ctxdone(c)], "v": 0}))
+        out.append((f"join({c},authz)", {"t": "join", "es": [ctxdone(c), {"t": "kind", "k": "authorization"}], "v": 1}))
+        out.append((f"bare {c}", ctxdone(c)))
+        out.append((f"url<-{c}", cause))
+        out.append((f"chain({c})", {"t": "chain", "es": [ctxdone(c)], "v": 0}))
+    return out
+
+
+def ctx_cases():
+    """every shape of ctx_shapes in every state of the request's context, plain and with overrides / verbose"""
+    out = []
+    ov = {"verbose": True, "ov": {"authn": 407, "authz": 404, "comm": 503, "precond": 422, "noRule": 410,
+                                  "internal": 599}}
+    for _, term in ctx_shapes():
+        for rctx in RCTX:
+            out.append(handler_case(PLAIN_CFG, None, {"k": "absent"}, term, rctx))
+            out.append(handler_case(ov, "application/json",
+                                    {"k": "ranges", "rs": [{"t": "application", "s": "json", "q": 1000, "p": 0}]}, term,
+                                    rctx))
+    return out
+
+
+KIND_CLASS = {"authentication": "authn", "authorization": "authz", "communication": "comm", "timeout": "comm",
+              "argument": "precond", "noRule": "noRule", "configuration": "internal", "internal": "internal"}
+
+
+def term_leaves(t):
+    if t["t"] == "wrap":
+        return term_leaves(t["e"])
+    if t["t"] in ("join", "chain"):
+        return [l for x in t["es"] for l in term_leaves(x)]
+    return [t]
+
+
+def term_class(t):
+    """the property's own words, independent of the Lean model: the class of an error value by the kinds inside it,
+    authentication > authorization > communication|timeout > precondition > no rule > redirect > anything else.
+    Returns (class, first redirect leaf or None)."""
+    leaves = term_leaves(t)
+    classes = {KIND_CLASS[l["k"]] for l in leaves if l["t"] == "kind"}
+    for c in ("authn", "authz", "comm", "precond", "noRule"):
+        if c in classes:
+            return c, None
+    for l in leaves:
+        if l["t"] == "redirect":
+            return "redirect", l
+    return "internal", None
+
+
 def override_cases():
-    """each class with each interesting override value, both verbose settings"""
+    """each class with each interesting override value, in every state of the request's context"""
     out = []
     cls_kind = {"authn": "authentication", "authz": "authorization", "comm": "communication", "precond": "argument",
                 "noRule": "noRule", "internal": "internal"}
-    for c in CLASSES:
-        for code in sorted(set(OVERRIDE_CODES)):
-            ov = dict((x, 0) for x in CLASSES)
-            ov[c] = code
-            for k in ([cls_kind[c]] + (["timeout"] if c == "comm" else []) + (["configuration"] if c == "internal" else [])):
-                out.append(handler_case({"verbose": False, "ov": ov}, None, {"k": "absent"},
-                                        {"t": "chain", "es": [{"t": "kind", "k": k}], "v": 1}))
+    for rctx in RCTX:
+        for c in CLASSES:
+            for code in sorted(set(OVERRIDE_CODES)):
+                ov = dict((x, 0) for x in CLASSES)
+                ov[c] = code
+                for k in ([cls_kind[c]] + (["timeout"] if c == "comm" else []) +
+                          (["configuration"] if c == "internal" else [])):
+                    out.append(handler_case({"verbose": False, "ov": ov}, None, {"k": "absent"},
+                                            {"t": "chain", "es": [{"t": "kind", "k": k}], "v": 1}, rctx))
     return out
 
 
@@ -530,6 +624,36 @@ SVC_PATHS = {
                                                                   {"t": "foreign", "v": 0}], "v": 0},
                      "only": ["proxy"], "finalize": True},
 }
+COMM_CANCELLED = {"t": "chain", "es": [{"t": "kind", "k": "communication"},
+                                       {"t": "wrap", "e": ctxdone("canceled"), "v": 2}], "v": 0}
+HANG_PATHS = {
+    # paths on which a REAL mechanism waits on a server that never answers, with the context of the request; only
+    # requested by the half-closing client (any other client would wait for ever)
+    "/hang/comm": {"cls": "comm", "err": COMM_CANCELLED, "only": ["decision", "proxy"]},       # remote authorizer
+    "/hang/generic": {"cls": "comm", "err": COMM_CANCELLED, "only": ["decision", "proxy"],     # generic authenticator
+                      "hdr": {"X-Token": "opaque"}},
+    "/hang/upstream": {"cls": "comm", "err": COMM_CANCELLED, "only": ["proxy"], "finalize": True},  # forwarding
+}
+# failures which need no waiting, requested by the half-closing client as well (the context of the request may or may
+# not be cancelled by the time they are translated)
+HC_PLAIN_PATHS = ["/authn", "/authz", "/comm", "/nothing", "/www", "/redirect", "/internal"]
+HC_DELAYS = [0, 0, 2, 20]  # ms between the request and the half-close
+
+
+def request_scenario(rq):
+    """what the property says about the failure provoked by a request to a plain path (not CEL / redirect/<code>)"""
+    w = rq.get("werr")
+    if w is not None:
+        if w.get("t") == "send":
+            return {"cls": "comm", "err": COMM_CANCELLED}
+        cls, red = term_class(w)
+        sc = {"cls": cls, "err": w}
+        if red is not None:
+            sc["code"] = red["code"]
+        return sc
+    return SVC_PATHS.get(rq["path"]) or HANG_PATHS.get(rq["path"])
+
+
 REALMS = ["", "My fancy app", "internal-realm", "Zone 51"]
 SVC_CODES = [0, 0, 400, 401, 403, 404, 407, 418, 429, 451, 500, 502, 503, 599, 302]
 SVC_ACCEPTS = [(None, {"k": "absent"}), ("*/*", {"k": "ranges", "rs": [{"t": "*", "s": "*", "q": 1000, "p": 0}]}),
@@ -605,11 +729,46 @@ def svc_scenario(path, mode):
     return None
 
 
-def svc_request(svc, path, accept, acc, mode=None):
+def svc_request(svc, path, accept, acc, mode=None, hc=None, werr=None, hdr=None):
+    """hc: the client half-closes its connection `hc` ms after the request and then reads the answer; werr: a scripted
+    pipeline step behind the path waits with the context of the request and then fails with this error value
+    ({"t": "send"}: it makes a real outbound call to a server which never answers)"""
     rq = {"svc": svc, "path": path, "accept": accept, "acc": acc}
     if mode is not None:
         rq["hdr"] = {"X-Mode": mode}
+    if hdr:
+        rq["hdr"] = dict(rq.get("hdr") or {}, **hdr)
+    if hc is not None:
+        rq["hc"] = True
+        rq["hcdelay"] = hc
+    if werr is not None:
+        rq["werr"] = werr
     return rq
+
+
+def halfclose_requests(rng, acc_of, n_random=4):
+    """the dimension "the client half-closes / the context of the request is cancelled while a mechanism waits": """
+    reqs = []
+    http_services = ("decision", "proxy")
+    for path, sc in HANG_PATHS.items():
+        for svc in sc["only"]:
+            reqs.append(svc_request(svc, path, *acc_of(), hc=rng.choice(HC_DELAYS), hdr=sc.get("hdr")))
+    shapes = [t for _, t in ctx_shapes()]
+    core = [{"t": "send"}, shapes[0]] + [t for n, t in ctx_shapes() if n in (
+        "communication<-canceled", "timeout<-deadline", "authentication<-comm<-canceled",
+        "authorization<-comm<-canceled", "bare canceled", "join(comm,canceled)")]
+    terms = core + rng.sample(shapes, 4)
+    for _ in range(n_random):
+        e = gen_err(rng, rng.choice([1, 2, 3]), redirects=False)
+        # make sure a context error is inside
+        terms.append({"t": "chain", "es": [e, {"t": "wrap", "e": ctxdone(rng.choice(CTX_ERRS)), "v": rng.randrange(3)}],
+                      "v": rng.randrange(4)})
+    for n, term in enumerate(terms):
+        svc = http_services[n % 2] if n < 2 * (len(terms) // 2) else rng.choice(http_services)
+        reqs.append(svc_request(svc, f"/ctxwait/{n}", *acc_of(), hc=rng.choice(HC_DELAYS), werr=term))
+    for path in HC_PLAIN_PATHS:
+        reqs.append(svc_request(rng.choice(http_services), path, *acc_of(), hc=rng.choice(HC_DELAYS)))
+    return reqs
 
 
 def gen_svc_case(rng, tmp, plain=False):
@@ -644,6 +803,7 @@ def gen_svc_case(rng, tmp, plain=False):
             reqs.append(svc_request(rng.choice(services), path, *acc_of(), mode=mode))
         for svc in services:
             reqs.append(svc_request(svc, path, *acc_of(), mode=rng.choice(MODES)))
+    reqs += halfclose_requests(rng, acc_of)
     rng.shuffle(reqs)
     return {"fam": "errmap", "op": "svc", "cfg": cfg, "pcfg": pcfg, "realm": realm, "rcode": rcode, "rcodes": rcodes,
             "reqs": reqs, "tmp": tmp}
